@@ -330,8 +330,10 @@ static void run_case(const e4::Case& c, e4::Comm& comm, FILE* out) {
         continue;
       g->getMirrorNodes() = savedMirrors;
       {
+        e4::pace_on(false); // never while a substrate is being set up
         Sub sub(*g, me, nh, g->isTransposed(), g->cartesianGrid(), false,
                 MODEV[M]);
+        e4::pace_on(true); // the sync loops below: idle polls may nap
         for (int red = 0; red < 3; ++red) {
           if (onlyRed >= 0 && red != onlyRed)
             continue;
@@ -534,8 +536,10 @@ static void run_case(const e4::Case& c, e4::Comm& comm, FILE* out) {
             }
           }
         }
+        e4::pace_on(false);
       } // substrate destroyed
     }
+    e4::pace_on(false);
     g->getMirrorNodes() = savedMirrors;
   }
   // sum the encoding counters of all hosts
